@@ -11,86 +11,96 @@ open Kapture Kapture.Sort
 variable {P : Type}
 
 /-- the invariant holds initially and is preserved by every operation, hence in every reachable state -/
-theorem inv_init : Inv (init : State P) := by sorry
+theorem inv_init : Inv (init : State P) := inv_init'
 
-theorem inv_step (s : State P) (op : Op P) (h : Inv s) : Inv (step s op).1 := by sorry
+theorem inv_step (s : State P) (op : Op P) (h : Inv s) : Inv (step s op).1 := inv_step' s op h
 
-theorem inv_reachable (ops : List (Op P)) : Inv (run (init : State P) ops).1 := by sorry
+theorem inv_reachable (ops : List (Op P)) : Inv (run (init : State P) ops).1 := inv_run init ops inv_init
 
 /-- refinement: each mutating operation acts on the content exactly like the plain map operation -/
 theorem setPair_refines (s : State P) (ts : Int) (dev : String) (p : P) (h : Inv s) :
-    abs (step s (Op.setPair ts dev p)).1 = (abs s).setPair ts dev p ∧ (step s (Op.setPair ts dev p)).2 = Out.ok := by sorry
+    abs (step s (Op.setPair ts dev p)).1 = (abs s).setPair ts dev p ∧ (step s (Op.setPair ts dev p)).2 = Out.ok :=
+  setPair_refines' s ts dev p
 
 theorem setTs_refines (s : State P) (ts : Int) (inner : List (String × P)) (h : Inv s) :
-    abs (step s (Op.setTs ts inner)).1 = (abs s).setTs ts inner ∧ (step s (Op.setTs ts inner)).2 = Out.ok := by sorry
+    abs (step s (Op.setTs ts inner)).1 = (abs s).setTs ts inner ∧ (step s (Op.setTs ts inner)).2 = Out.ok :=
+  setTs_refines' s ts inner
 
 theorem delTs_refines (s : State P) (ts : Int) (h : Inv s) :
     if (abs s).present ts then
       abs (step s (Op.delTs ts)).1 = (abs s).delTs ts ∧ (step s (Op.delTs ts)).2 = Out.ok
-    else step s (Op.delTs ts) = (s, Out.keyError) := by sorry
+    else step s (Op.delTs ts) = (s, Out.keyError) := delTs_refines' s ts h
 
 theorem delPair_refines (s : State P) (ts : Int) (dev : String) (h : Inv s) :
     if ((abs s).entry ts dev).isSome then
       Abs.DelPair (abs s) (abs (step s (Op.delPair ts dev)).1) ts dev ∧ (step s (Op.delPair ts dev)).2 = Out.ok
-    else step s (Op.delPair ts dev) = (s, Out.keyError) := by sorry
+    else step s (Op.delPair ts dev) = (s, Out.keyError) := delPair_refines' s ts dev h
 
 /-- queries never change the content (some refresh the cache) -/
 theorem query_keeps_content (s : State P) (op : Op P) (hq : isQuery op = true) :
-    abs (step s op).1 = abs s := by sorry
+    abs (step s op).1 = abs s := query_keeps_content' s op hq
 
 /-- membership and lookup answer from the content -/
 theorem hasPair_spec (s : State P) (ts : Int) (dev : String) :
-    (step s (Op.hasPair ts dev)).2 = Out.bool ((abs s).entry ts dev).isSome := by sorry
+    (step s (Op.hasPair ts dev)).2 = Out.bool ((abs s).entry ts dev).isSome := hasPair_spec' s ts dev
 
 theorem hasTs_spec (s : State P) (ts : Int) :
-    (step s (Op.hasTs ts)).2 = Out.bool ((abs s).present ts) := by sorry
+    (step s (Op.hasTs ts)).2 = Out.bool ((abs s).present ts) := hasTs_spec' s ts
 
 theorem getPair_spec (s : State P) (ts : Int) (dev : String) :
-    (step s (Op.getPair ts dev)).2 = (match (abs s).entry ts dev with | some p => Out.pose p | none => Out.keyError) := by sorry
+    (step s (Op.getPair ts dev)).2 = (match (abs s).entry ts dev with | some p => Out.pose p | none => Out.keyError) :=
+  getPair_spec' s ts dev
 
 /-- `key_pairs` lists exactly the stored (timestamp, device) pairs, each once -/
 theorem keyPairs_spec (s : State P) (h : Inv s) :
-    ∃ l, (step s Op.keyPairs).2 = Out.pairs l ∧ l.Nodup ∧ ∀ t d, (t, d) ∈ l ↔ ((abs s).entry t d).isSome = true := by sorry
+    ∃ l, (step s Op.keyPairs).2 = Out.pairs l ∧ l.Nodup ∧ ∀ t d, (t, d) ∈ l ↔ ((abs s).entry t d).isSome = true :=
+  ⟨keyPairsOf s.data, rfl, keyPairsOf_nodup s.data h.1 h.2.1, fun t d => keyPairsOf_mem s.data h.1 t d⟩
 
 /-- the sorted-timestamp list is the strictly increasing list of the timestamps present, whatever the cache held -/
 theorem sortedList_spec (s : State P) (h : Inv s) :
-    ∃ l, (step s Op.sortedList).2 = Out.ints l ∧ SortedKeys (abs s) l := by sorry
+    ∃ l, (step s Op.sortedList).2 = Out.ints l ∧ SortedKeys (abs s) l :=
+  ⟨isort (Dict.keys s.data), congrArg Out.ints (refresh_cache s h), sortedKeys_isort s h⟩
 
 /-- a content has exactly one sorted key list -/
-theorem sortedKeys_unique (a : Abs P) (l₁ l₂ : List Int) (h₁ : SortedKeys a l₁) (h₂ : SortedKeys a l₂) : l₁ = l₂ := by sorry
+theorem sortedKeys_unique (a : Abs P) (l₁ l₂ : List Int) (h₁ : SortedKeys a l₁) (h₂ : SortedKeys a l₂) : l₁ = l₂ :=
+  sortedKeys_unique' a l₁ l₂ h₁ h₂
 
 /-- interpolation: the stored pose when one exists, otherwise the interpolant of the two nearest poses of that
   device when both lie within the allowed interval, otherwise nothing -/
 theorem interp_spec (s : State P) (ts : Int) (dev : String) (maxI : Int) (l : List Int) (h : Inv s)
     (hl : SortedKeys (abs s) l) :
-    (step s (Op.interp ts dev maxI)).2 = interpSpec (abs s) l ts dev maxI := by sorry
+    (step s (Op.interp ts dev maxI)).2 = interpSpec (abs s) l ts dev maxI := interp_spec' s ts dev maxI l h hl
 
 /-- ... and never fails -/
 theorem interp_total (s : State P) (ts : Int) (dev : String) (maxI : Int) (h : Inv s) :
-    (step s (Op.interp ts dev maxI)).2 ≠ Out.keyError ∧ (step s (Op.interp ts dev maxI)).2 ≠ Out.indexError := by sorry
+    (step s (Op.interp ts dev maxI)).2 ≠ Out.keyError ∧ (step s (Op.interp ts dev maxI)).2 ≠ Out.indexError :=
+  interp_total' s ts dev maxI h
 
 /-- the reference digit count is the usual one: d digits means 10^(d-1) ≤ n < 10^d -/
-theorem digitsRef_bounds (n : Nat) (h : 0 < n) : 10 ^ (digitsRef n - 1) ≤ n ∧ n < 10 ^ digitsRef n := by sorry
+theorem digitsRef_bounds (n : Nat) (h : 0 < n) : 10 ^ (digitsRef n - 1) ≤ n ∧ n < 10 ^ digitsRef n :=
+  digitsRef_bounds' n h
 
 /-- `num_digits` (generated from the source) counts decimal digits of |n| -/
-theorem numDigits_spec (n : Int) : Gen.NumDigits.numDigits n = (digitsRef n.natAbs : Int) := by sorry
+theorem numDigits_spec (n : Int) : Gen.NumDigits.numDigits n = (digitsRef n.natAbs : Int) := numDigits_spec' n
 
 /-- timestamp length on non-negative timestamps: the common digit count or -1 (sampling 9 positions of a sorted list
   is enough because the digit count is monotone) -/
 theorem tsLength_spec (s : State P) (l : List Int) (h : Inv s) (hl : SortedKeys (abs s) l) (hpos : ∀ t ∈ l, 0 ≤ t) :
-    (step s Op.tsLength).2 = tsLengthSpec l := by sorry
+    (step s Op.tsLength).2 = tsLengthSpec l := tsLength_spec' s l h hl hpos
 
 /-- history independence, one step: two states with the same content answer every order-free query alike,
   and every operation leaves them with the same content -/
 theorem same_content_same_answers (s₁ s₂ : State P) (op : Op P) (h₁ : Inv s₁) (h₂ : Inv s₂) (e : abs s₁ = abs s₂) :
-    abs (step s₁ op).1 = abs (step s₂ op).1 ∧ (isOrderFreeQuery op = true ∨ isQuery op = false → (step s₁ op).2 = (step s₂ op).2) := by sorry
+    abs (step s₁ op).1 = abs (step s₂ op).1 ∧ (isOrderFreeQuery op = true ∨ isQuery op = false → (step s₁ op).2 = (step s₂ op).2) :=
+  same_content_same_answers' s₁ s₂ op h₁ h₂ e
 
 /-- history independence, whole histories: whatever two edit/query histories led to the same content,
   every continuation made of order-free operations produces the same outputs -/
 theorem history_independent (h₁ h₂ cont : List (Op P))
     (e : abs (run (init : State P) h₁).1 = abs (run (init : State P) h₂).1)
     (hc : ∀ op ∈ cont, isOrderFreeQuery op = true ∨ isQuery op = false) :
-    (run (run (init : State P) h₁).1 cont).2 = (run (run (init : State P) h₂).1 cont).2 := by sorry
+    (run (run (init : State P) h₁).1 cont).2 = (run (run (init : State P) h₂).1 cont).2 :=
+  run_same_outputs _ _ cont (inv_reachable h₁) (inv_reachable h₂) e hc
 
 -- non-vacuity: a reachable state with a warm cache, an empty timestamp and a stored pose
 example : ∃ s : State Nat, Inv s ∧ s.cache ≠ [] ∧ (abs s).present 20 = true ∧ (abs s).entry 10 "a" = some 1 :=
